@@ -26,7 +26,7 @@ R_ALL = ["R1-comment", "R2-blank-lines", "R3-indent", "R4-spacing", "R5-crlf", "
 REQUIRED = {**{r: 10 for r in R_ALL}, "isolated:R5-crlf": 2, "isolated:R10-bom": 2, "isolated:R8-semicolons": 2, "isolated:R6-wrap": 2, "isolated:R7-comma": 2,
             "isolated:R1-comment": 2, "isolated:R11-multifile": 2, "isolated:R9-end-added": 2,
             "crlf+wrapped-params": 5, "bom-on-later-file": 3, "bom-on-first-file": 3, "multifile-end-in-every-file": 3, "multifile-no-trailing-newline": 3, "multifile-end-line-variants": 5, "multifile-crlf-end-line": 3,
-            "text-closes-with-word-ending-in:n": 3, "text-closes-with-word-ending-in:d": 2, "text-closes-with-word-ending-in:E": 2, "master-file-variant": 2, "corpus-base": 20, "generated-base": 20, "snapshot-with-chains": 20}
+            "text-closes-with-word-ending-in:n": 3, "text-closes-with-word-ending-in:d": 2, "text-closes-with-word-ending-in:E": 2, "string-ends-in-a-comment-without-newline": 5, "master-file-variant": 2, "corpus-base": 20, "generated-base": 20, "snapshot-with-chains": 20}
 ASSUMPTIONS = ["parameter-list wrapping only on non-empty lists; file splits only between top-level statements; string inputs end with a newline",
                "warnings are recorded, not compared; absent parameter list '' == []"]
 DEFAULT_CFG = None
@@ -119,6 +119,11 @@ def make_variant(ctx, text, items, um, force=None):
     if pack == "string":
         if not new.endswith("\n"):
             new += "\n"
+        if force is None and rng.random() < 0.15:
+            # the string ends in a comment and no line end at all (the comment closes the last statement)
+            new = new.rstrip("\r\n \t") + rng.choice(["  # closing note", " #", "\t# End"])
+            applied.add("R1-comment")
+            ctx.hit("string-ends-in-a-comment-without-newline")
         return {"mode": "string", "text": new}, applied
     applied.add("R12-file-vs-string")
     if pack in ("file", "file-bom"):
